@@ -27,6 +27,8 @@ SLICE_FNS = {'from_slice', 'write_to_slice', 'from_cols_slice', 'write_cols_to_s
 INDEX_FNS = {'index', 'index_mut', 'col', 'col_mut', 'row', 'test', 'set', 'from_mat3_minor', 'from_mat4_minor',
              'from_mat3a_minor'}
 INT_PREFIXES = ('i8::', 'u8::', 'i16::', 'u16::', 'i32::', 'u32::', 'i64::', 'u64::', 'usize::')
+INDEX_RANGE_FNS = {'index', 'index_mut', 'col', 'col_mut', 'row', 'test', 'set'}
+MAT_DIMS = {'Mat2': (2, 2), 'Mat3': (3, 3), 'Mat3A': (3, 3), 'Mat4': (4, 4), 'DMat2': (2, 2), 'DMat3': (3, 3), 'DMat4': (4, 4)}
 ATOMIC_FNS = {'write_to_slice', 'write_cols_to_slice'}
 FLOOR_ROOTS = 13000     # measured 13376 reachable non-generic roots per config
 FLOOR_DOC_PANIC = 400   # roots with at least one documented panic site (measured when armed)
@@ -116,6 +118,46 @@ def run(ctx):
                     bad.append({'site': p.kind, 'in_fn': p.fn, 'file': p.file, 'line': p.line,
                                 'call_path': [s[0] for s in p.stack][-6:], 'why': why,
                                 'condition': tm.show(p.cond, 0, 5)[:300]})
+            # R-INDEXRANGE: the indexing functions panic exactly for out-of-range indices.  Their panic conditions touch the index only through
+            # comparisons with constants; substituting every index 0 .. N+1 and the largest one decides them on all orderings: valid indices
+            # (below the dimension of the type) never panic, all others do
+            if it.get('name') in INDEX_RANGE_FNS and len(runs) == 1 and not int_fn:
+                body_ = F.body(it['key'])
+                sty_ = body_['locals'][1]
+                if F.types[sty_].get('k') == 'ptr':
+                    sty_ = F.types[sty_]['to']
+                tn_ = tydef(F, sty_) or ''
+                vi_ = vec_info(F, sty_)
+                dim_ = None
+                if vi_ is not None:
+                    dim_ = vi_['dim']
+                elif tn_ in MAT_DIMS:
+                    dim_ = MAT_DIMS[tn_][1] if it['name'] == 'row' else MAT_DIMS[tn_][0]
+                idx_atoms = [a for a, ia in r.atoms.items() if ia.arg == 1 and ia.kind == 'int' and ia.off == 0 and not ia.through_ptr]
+                if dim_ is not None and len(idx_atoms) == 1 and body_['argc'] >= 2:
+                    ia_ = idx_atoms[0]
+                    ps = F.ptr_size
+                    why = None
+                    live = [p for p in r.panics if p.cond is not tm.FALSE]
+                    for kidx in list(range(0, dim_ + 2)) + [(1 << (8 * ps)) - 1]:
+                        fires = False
+                        undecided_ = False
+                        for p in live:
+                            v = tm.subst(p.cond, {ia_: tm.const(kidx, ps)})
+                            if v is tm.TRUE:
+                                fires = True
+                            elif v is not tm.FALSE:
+                                undecided_ = True
+                        if kidx < dim_ and fires:
+                            why = 'panics for the valid index %d (the type has %d %s)' % (kidx, dim_, 'lanes' if vi_ else ('rows' if it['name'] == 'row' else 'columns'))
+                            break
+                        if kidx >= dim_ and not fires and not undecided_:
+                            why = 'does not panic for the out-of-range index %d (the type has %d)' % (kidx, dim_)
+                            break
+                    if why:
+                        ctx.violation('R-INDEXRANGE', cfg, name, {'file': it['file'], 'line': it['line'], 'problem': why})
+                    else:
+                        ctx.holds('R-INDEXRANGE', cfg, name)
             # R-SLICELEN: the slice functions panic only when the slice is shorter than the element count.  Their panic conditions touch the
             # length only through comparisons with constants, so they are decided on the finite set of orderings of the length against
             # those constants: for every length >= N (N, the constants and their neighbours, a huge value) each condition must be false
